@@ -22,16 +22,21 @@ def state_lines(rng, version, n_ops, nodes=(1, 3)):
 class DiskWorld:
     """A World used only for its kernel (timers) and SimFS switching."""
 
-    def __init__(self, version, fmt, flavour="serial", bufsize=8192, sched=None, max_steps=400_000):
+    def __init__(self, version, fmt, flavour="serial", bufsize=8192, sched=None, max_steps=400_000, relpath=None):
         self.version = version
         self.fmt = fmt
-        self.path = f"/work/mysensors.{fmt}"
+        # the file as configured (possibly relative to the working directory, as in the README) ...
+        self.path = f"{relpath}.{fmt}" if relpath else f"/work/mysensors.{fmt}"
         self.fs = simfs.SimFS(bufsize=bufsize)
+        # ... and where it really lives
+        self.abspath = self.fs.norm(self.path)
+        self.fs.mkdir(simfs.posixpath.dirname(self.abspath))
         self.world = W.World(flavour, {"protocol_version": version, "persistence": True, "persistence_file": self.path},
                              fs=self.fs, sched=sched, max_steps=max_steps)
         self.flavour = flavour
 
     def use(self, fs):
+        fs.mkdir(simfs.posixpath.dirname(self.abspath))
         self.fs = fs
         self.world.fs = fs
         simfs.FsHolder.fs = fs
